@@ -129,6 +129,7 @@ class Result:
         self.concrete_failures = []   # labels of asserts that are concretely false on a feasible path
         self.traces = []
         self.forks = 0
+        self.dropped_on_bound = 0
         self.simplified = []     # labels of symbolic obligations reduced to `true` by z3's rewriter
         self.fork_solver_time = 0.0
         self.steps = 0
@@ -384,6 +385,12 @@ class SymExec:
         if want == 'i' and ck == 'p':
             if isinstance(cv, Ptr):
                 return PInt(cv.obj, cv.off)
+        if self.mode == 'real' and want == 'f' and ck == 'i' and not is_sym(cv) and not isinstance(cv, PInt):
+            import struct as _st
+            d = _st.unpack('<d', _st.pack('<Q', cv))[0] if cn == 8 else _st.unpack('<f', _st.pack('<I', cv & 0xffffffff))[0]
+            return rlit(d)
+        if self.mode == 'real' and want == 'i' and ck == 'f' and isinstance(cv, Fraction) and cv == 0:
+            return 0
         if self.mode != 'real' and want == 'i' and ck == 'f':
             return self.fp_to_bits(cv, cn * 8)
         if self.mode != 'real' and want == 'f' and ck == 'i':
@@ -715,6 +722,10 @@ class SymExec:
         n = st.site_forks.get(site, 0) + 1
         st.site_forks[site] = n
         if n > self.opts['max_site_forks']:
+            if self.opts.get('drop_on_bound'):
+                # stated bound (e.g. iterations of a memoryless rejection loop): deeper paths are outside the claim, counted in evidence
+                self.res.dropped_on_bound += 1
+                raise PathEnd()
             raise Unsupported('unwinding bound exceeded at %s (max_site_forks=%d)' % (site, self.opts['max_site_forks']))
         ncond = z3.simplify(z3.Not(cond))
         ft = self.feasible(st, cond)
